@@ -39,6 +39,8 @@ def gen_cases(tier, rng):
         else:
             s = "".join(rng.choice(pieces) for _ in range(k))
         extra.append(s)
+    # package parts ending in several slashes (C17-F1: the parser strips all of them), whatever the tier's length bound
+    extra += ["//a//:x", "//a///:x", "//a//:all", "//a//:...", "//a/b//:b", "//a//...", "//a//...:x", "///:x", "////:x", "//a//b//:a"]
     extra_curs = [".", "a:b", "x...y", "a/", "zz"]
     return strings, extra, extra_curs
 
@@ -100,6 +102,11 @@ def run(out, tier):
         for i in range(1, len(lines)):
             kind, cur, s = meta[i]
             a = impl[i]
+            partial = None
+            if kind == "pattern" and "\tpartial=" in a:
+                # implementation-only field (ParsePartialTargetPattern has no counterpart in Label.v)
+                a, partial = a.rsplit("\tpartial=", 1)
+                impl[i] = a
             if a != model[i]:
                 mismatches.append(i)
             f = a.split("\t")
@@ -132,19 +139,35 @@ def run(out, tier):
                     want = "".join("1" if ref_match(prefix, target, rec, l) else "0" for l in UNIVERSE)
                     if mv != want:
                         oracle_fail.append((i, "Matches disagrees with the documented matching rule: got %s want %s" % (mv, want)))
-                    if re_ != mv:
-                        guard = rec or (":" not in prefix and "..." not in prefix and not prefix.endswith("/"))
-                        if not guard and prefix.endswith("/") and "trailing-slash-prefix" in findings:
+                    # O5 print / re-parse (C17_pattern_reparse, C17_pattern_reparse_abs): no guard for absolute patterns,
+                    # relative ones need a current package that is a package path (no ':', no '...', no trailing slash)
+                    absolute = s.startswith("//")
+                    cur_ok = ":" not in cur and "..." not in cur and not cur.endswith("/")
+                    same = "%s:%s:%s" % (f[1], f[2], f[3])
+                    rp = f[7] if len(f) > 7 else same
+                    if re_ != mv or ((absolute or cur_ok) and rp != same):
+                        if absolute and not rec and prefix.endswith("/") and "trailing-slash-prefix" in findings:
                             out.known(findings["trailing-slash-prefix"]["id"],
-                                      "pattern %r prints as %r which matches a different label set" % (s, unhx(f[4]).decode("latin-1")))
-                        elif not guard and not prefix.endswith("/"):
-                            pass  # relative pattern in a current package containing ':' or '...': outside the guard (DESIGN 5.C17)
+                                      "pattern %r prints as %r which %s" % (s, unhx(f[4]).decode("latin-1"),
+                                      "matches a different label set" if re_ != mv else "parses to a different pattern (%s -> %s)" % (same, rp)))
+                        elif not absolute and not cur_ok:
+                            pass  # relative pattern in a current package that is not a package path: outside the guard (DESIGN 5.C17)
+                        elif re_ != mv:
+                            oracle_fail.append((i, "print/re-parse changes the match set: %r prints as %r, %s -> %s" % (
+                                s, unhx(f[4]).decode("latin-1"), mv, re_)))
                         else:
-                            oracle_fail.append((i, "print/re-parse changes the match set: %s -> %s" % (mv, re_)))
+                            oracle_fail.append((i, "print/re-parse changes the pattern: %r prints as %r, %s -> %s" % (
+                                s, unhx(f[4]).decode("latin-1"), same, rp)))
+                    # O6 the lenient parser used for completion reads a complete absolute pattern like the strict one
+                    if partial is not None and absolute and (rec or ":" in s[2:]):
+                        if partial != same + ":complete":
+                            oracle_fail.append((i, "ParsePartialTargetPattern reads the complete pattern %r as %s, ParseTargetPattern as %s" % (
+                                s, partial, same)))
                 else:
                     kinds["pattern_err"] += 1
                     if len(s) > 2:
                         nontrivial.add(lines[i])
+    oracle_fail.sort(key=lambda e: "match set" not in e[1])   # stable: failures that change the match set first
     for i, why in oracle_fail[:3]:
         out.violation(why, {"case": {"kind": meta[i][0], "cur": meta[i][1], "input": meta[i][2]},
                             "line": lines[i], "impl": impl[i], "model": model[i],
@@ -166,7 +189,7 @@ def run(out, tier):
         "evaluations": len(lines) - 1,
         "distinct_nontrivial": len(nontrivial),
         "rule": "every string over {/ : . a b -} up to length %d x current packages %s, as label and as pattern, match vector against a %d-label universe; "
-                "plus %d random strings over all byte values; non-trivial = parses successfully or is longer than 2 bytes; distinct = distinct (kind, cur, input)" % (
+                "plus %d random and fixed strings over all byte values; non-trivial = parses successfully or is longer than 2 bytes; distinct = distinct (kind, cur, input)" % (
                     6 if tier == "quick" else 8, CURS, len(UNIVERSE), len(extra)),
         "exhaustive": True,
         "samples": samples,
@@ -198,7 +221,8 @@ def cli_tie(out, rng, tier):
     open(os.path.join(ws, "grog.toml"), "w").write("")
     univ = [(p, n) for p, ns in pkgs.items() for n in ns]
     pats = ["//...", "//a/...", "//a:all", "//a", "//a/b", "//a/b:...", "//ab/...", "//a/...:b", ":a", ":all",
-            "//a...", "//:all", "//a/b:ab", "//a/a", "//:a", "//a/:a", "//b/...", "//a/b/...:ab"]
+            "//a...", "//:all", "//a/b:ab", "//a/a", "//:a", "//a/:a", "//b/...", "//a/b/...:ab",
+            "//a//:a", "//a///:all", "//a/b//:b", "//a//...:b", "///:a"]
     if tier != "quick":
         pats += ["//" + "".join(rng.choice(["a", "b", "/", "...", ":", "all"]) for _ in range(1 + rng.below(4))) for _ in range(60)]
     curs = ["", "a", "a/b"]
@@ -236,6 +260,7 @@ def replay(out, path):
     drv = vlib.build_driver()
     _, impl, _ = vlib.run_lines(h, [uni, line])
     _, model, _ = vlib.run_lines(drv, [uni, line])
+    impl[1] = impl[1].rsplit("\tpartial=", 1)[0]
     print("impl :", impl[1])
     print("model:", model[1])
     if impl[1] != model[1]:
